@@ -60,6 +60,9 @@ type Case struct {
 	CrashDelay  int    `json:"crash_delay_us"`
 	StepsDown   []Step `json:"steps_down"` // while down
 	Steps2      []Step `json:"steps2"`     // while run 2 is up
+	// Symlinks: the watched directory holds symbolic links (one per file, one more for every rotated
+	// file) to files that live elsewhere, the way kubelet lays out pod logs
+	Symlinks bool `json:"symlinks,omitempty"`
 }
 
 var streamNames = []string{"a", "b", "c"}
@@ -114,6 +117,7 @@ func gen(t *rapid.T) Case {
 		FlushMs:     rapid.SampledFrom([]int{1, 5, 20}).Draw(t, "flush"),
 		ReadBuf:     rapid.SampledFrom([]int{16, 64, 4096, 131072}).Draw(t, "read_buf"),
 	}
+	c.Symlinks = rapid.IntRange(0, 3).Draw(t, "symlinks") == 0
 	g := &genState{nextID: 1, nstreams: rapid.IntRange(1, 3).Draw(t, "nstreams")}
 	for i := 0; i < g.nstreams; i++ {
 		c.StallUs = append(c.StallUs, rapid.SampledFrom([]int{0, 0, 200, 2000, 20000}).Draw(t, "stall"))
@@ -144,6 +148,7 @@ func renderLine(l Line) string {
 type world struct {
 	dir      string
 	logs     string
+	real     string // != "": the files live here, logs holds symbolic links to them
 	rotSeq   int
 	mu       sync.Mutex
 	written  map[int]int    // line id -> file index it was written to
@@ -190,7 +195,23 @@ func parseOffsetsSnapshot(content string) map[uint64]map[string]bool {
 	return res
 }
 
-func (w *world) path(i int) string { return filepath.Join(w.logs, fmt.Sprintf("f%d.log", i)) }
+func (w *world) path(i int) string {
+	if w.real != "" {
+		return filepath.Join(w.real, fmt.Sprintf("f%d.log", i))
+	}
+	return filepath.Join(w.logs, fmt.Sprintf("f%d.log", i))
+}
+
+// link makes sure the watched directory has a symbolic link to a file that lives elsewhere.
+func (w *world) link(target string) {
+	if w.real == "" {
+		return
+	}
+	l := filepath.Join(w.logs, filepath.Base(target))
+	if _, err := os.Lstat(l); err != nil {
+		_ = os.Symlink(target, l)
+	}
+}
 
 func (w *world) apply(st Step, live bool) {
 	switch st.Op {
@@ -214,6 +235,7 @@ func (w *world) apply(st Step, live bool) {
 			_, _ = f.WriteString(data)
 		}
 		_ = f.Close()
+		w.link(w.path(st.File))
 		w.mu.Lock()
 		ino := inodeOf(w.path(st.File))
 		for _, l := range st.Lines {
@@ -227,6 +249,7 @@ func (w *world) apply(st Step, live bool) {
 		if _, err := os.Stat(w.path(st.File)); err == nil {
 			w.rotSeq++
 			_ = os.Rename(w.path(st.File), fmt.Sprintf("%s.%d", w.path(st.File), w.rotSeq))
+			w.link(fmt.Sprintf("%s.%d", w.path(st.File), w.rotSeq))
 		}
 	case "truncate":
 		if _, err := os.Stat(w.path(st.File)); err == nil {
@@ -427,6 +450,10 @@ func runCase(c Case) *vkit.Outcome {
 	defer os.RemoveAll(dir)
 	w := &world{dir: dir, logs: filepath.Join(dir, "logs"), written: map[int]int{}, gen: map[int]int{}, lineGen: map[int]int{}, lineIno: map[int]uint64{}, lineStr: map[int]string{}}
 	_ = os.MkdirAll(w.logs, 0o755)
+	if c.Symlinks {
+		w.real = filepath.Join(dir, "real-files-behind-the-links")
+		_ = os.MkdirAll(w.real, 0o755)
+	}
 
 	fdkit.TakeLoggedPanics()
 	fdkit.SetPanicCapture(true)
@@ -638,6 +665,12 @@ waitCrash:
 	}
 	if rot {
 		o.Class("rotation")
+	}
+	if c.Symlinks {
+		o.Class("files-behind-symbolic-links")
+		if rot {
+			o.Class("rotation-behind-symbolic-links")
+		}
 	}
 	if len(c.StepsDown) > 0 {
 		o.Class("down-time-steps")
